@@ -105,13 +105,15 @@ def functions(prog):
     return out
 
 
-def run_L1(chk, rule="L1", floor=100):
-    """index-space typing of every per-leg lookup in the tensor layer"""
+def run_L1(chk, rule="L1", floor=100, only=None):
+    """index-space typing of every per-leg lookup in the tensor layer (`only`: restrict to the named functions)"""
     prog = chk.prog
     chk.rule(rule, "every per-leg lookup uses an index of the right space (meta / logical-native / native)", floor=floor)
     n_sinks = n_def = 0
     undecided = 0
     for f in functions(prog):
+        if only is not None and f.name not in only:
+            continue
         seeds = SEEDS.get(f.name, {})
         src = A.text(f.node)
         if not any(k in src for k in (".trans", ".mfs", ".hfs", "struct.s", "nin_", "nout_", "_unpack_axes")):
